@@ -39,7 +39,10 @@ def gen(rng, tier):
     spec = {"subs": subs, "clients": clients, "workers": rng.choice([1, 1, 2]),
             "mid": rng.choice([None, None, "map", "timeout"]),
             "shutdown_at": rng.choice([0, 0, 0.05, 0.1, 0.25]), "shutdown_await": rng.choice([None, None, "call-enter", "submitted"]),
-            "wait": rng.random() < 0.7, "settle": 5.0}
+            "wait": rng.random() < 0.7, "settle": 5.0,
+            # a further shutdown() by the same thread afterwards (e.g. leaving a `with` block after an
+            # explicit shutdown(wait=False)): harmless - in particular no second sweep
+            "again": rng.choice([None, None, None, True, False]), "again_at": rng.choice([0, 0.05])}
     spec["sim"] = runner.draw_sim_cfg(rng, est=400)
     spec["sim"]["horizon_s"] = 5000
     return spec
@@ -109,6 +112,12 @@ def run(spec, env):
         env.hit("shutdown-begin")
         ex.shutdown(spec["wait"])
         env.rec("shutdown-ret", i)
+        if spec.get("again") is not None:
+            if spec.get("again_at"):
+                env.sleep(spec["again_at"])
+            j = env.rec("shutdown2")
+            ex.shutdown(spec["again"])
+            env.rec("shutdown2-ret", j)
 
     for ops in spec["clients"]:
         env.client(client_body(ops))
@@ -173,6 +182,14 @@ def check(spec, env):
         if len(by_sd) > 1:
             out.append({"oracle": "cancel-twice", "sig": "cancelled-more-than-once",
                         "msg": "future of submission %r received %d cancel() calls from shutdown()" % (s, len(by_sd))})
+        s2 = [e for e in log if e[3] == "shutdown2"]
+        r2 = [e for e in log if e[3] == "shutdown2-ret"]
+        if s2 and r2:
+            again = [c for c in cs if c[2] == T and s2[0][0] < c[0] < r2[0][0]]
+            if again:
+                out.append({"oracle": "cancel-twice", "sig": "swept-again-by-second-shutdown|first-wait=%s|second-wait=%s" % (spec["wait"], spec["again"]),
+                            "msg": "future of submission %r received cancel() from a second shutdown(%s) call (the first shutdown(%s) had already swept: %d cancel() then)"
+                                   % (s, spec["again"], spec["wait"], len(by_sd))})
         certainly_done_before = d_fin.get(label, 1 << 60) < S_inv
         certainly_pending_throughout = d_begin.get(label, 1 << 60) > S_ret
         if certainly_pending_throughout and not by_sd:
